@@ -81,13 +81,13 @@ func Content(k Kind, name, marker string) []byte {
 	}
 	switch k {
 	case X:
-		doc = map[string]any{"cdiVersion": "0.5.0", "kind": Kind1, "devices": []any{dev("x")}}
+		doc = map[string]any{"cdiVersion": "0.5.0", "kind": Kind1, "devices": []any{dev("x")}, "containerEdits": map[string]any{"env": []any{"SPECSRC=" + marker}}}
 	case XY:
 		doc = map[string]any{"cdiVersion": "0.5.0", "kind": Kind1, "devices": []any{dev("x"), dev("y")}, "containerEdits": map[string]any{"env": []any{"SPECSRC=" + marker}}}
 	case Y:
-		doc = map[string]any{"cdiVersion": "0.5.0", "kind": Kind1, "devices": []any{dev("y")}}
+		doc = map[string]any{"cdiVersion": "0.5.0", "kind": Kind1, "devices": []any{dev("y")}, "containerEdits": map[string]any{"env": []any{"SPECSRC=" + marker}}}
 	case V2:
-		doc = map[string]any{"cdiVersion": "0.5.0", "kind": Kind2, "devices": []any{dev("x")}}
+		doc = map[string]any{"cdiVersion": "0.5.0", "kind": Kind2, "devices": []any{dev("x")}, "containerEdits": map[string]any{"env": []any{"SPECSRC=" + marker}}}
 	case Syn:
 		if strings.HasSuffix(name, ".json") {
 			return []byte(`{"cdiVersion": "0.5.0", "kind": "` + Kind1 + `", "devices": [`)
